@@ -391,7 +391,8 @@ def oldParse (buf : Bytes) : Nat → Nat → List SparseEnt → R (Bool × List 
   | cnt + 1, i, acc =>
     match buf[i]?, buf[i + 12]? with
     | some a, some b =>
-      if !isDigit a || !isDigit b then .ok (true, acc)
+      -- since /repo 0f8c0bd an entry is in use if its numbers start with a digit or with 0x80 (positive base-256)
+      if !(isDigit a || a.toNat = 128) || !(isDigit b || b.toNat = 128) then .ok (true, acc)
       else match readNumber buf i 12 with
         | .oob => .oob | .spin => .spin | .fail c => .fail c
         | .ok off =>
